@@ -89,6 +89,9 @@ func c15reads(env *core.Env) {
 	type tagState struct {
 		repo, tag string
 		dig       [2]ociregistry.Digest // "" = absent
+		// dangling: the member has the tag, bound to a manifest it no longer holds
+		// (pushed under the tag, then deleted by digest)
+		dangling [2]bool
 	}
 	var tags []*tagState
 	for _, r := range repos {
@@ -100,6 +103,18 @@ func c15reads(env *core.Env) {
 					if it.repo == r && it.mt != "" && it.in[m] {
 						cands = append(cands, it)
 					}
+				}
+				if c.Bool("tag.dangling", 1, 8) {
+					data := []byte(fmt.Sprintf(`{"gone":"%s-%s-%d"}`, r, t, m))
+					d := reg.Sha256(data)
+					if _, err := mems[m].PushManifest(ctx, r, t, data, "application/x-verif.opaque"); err != nil {
+						core.Harnessf("populate dangling tag: %v", err)
+					}
+					if err := mems[m].DeleteManifest(ctx, r, d); err != nil {
+						core.Harnessf("populate dangling tag: %v", err)
+					}
+					ts.dig[m], ts.dangling[m] = d, true
+					continue
 				}
 				if len(cands) == 0 || !c.Bool("tagged", 2, 3) {
 					continue
@@ -114,6 +129,11 @@ func c15reads(env *core.Env) {
 		}
 	}
 	hasContent := func(m int, repo string) bool {
+		for _, ts := range tags {
+			if ts.repo == repo && ts.dig[m] != "" {
+				return true
+			}
+		}
 		for _, it := range items {
 			if it.repo == repo && it.in[m] {
 				return true
@@ -169,6 +189,12 @@ func c15reads(env *core.Env) {
 			case ts.dig[0] != "" || ts.dig[1] != "":
 				expectOK = true
 				class = op.Kind.String() + "/one"
+				if ts.dangling[0] || ts.dangling[1] {
+					// the one member that has the tag no longer has the manifest: the tag
+					// resolves, its content cannot be fetched
+					expectOK = op.Kind == reg.ResolveTag
+					class += "/dangling"
+				}
 			default:
 				class = op.Kind.String() + "/none"
 			}
